@@ -452,7 +452,49 @@ def run(cfg):
             ret = any(s.k == 'return' for s in guard.a[1])
             ok = ret and strs == ['<Invalid %s>' % cls]
         ob('R4', '%s::printTo:error' % cls, pf.loc, ok, 'printTo does not start with "if (isError()) { print(\\"<Invalid %s>\\"); return; }"' % cls)
+    # R5 parsers keep the parsed fields: no detour through the 32-bit epoch-seconds count (it only spans 1932..2067,
+    # the printed fields span 1873..2127)
+    R.rule('R5', 'no for*String parser routes the parsed fields through epoch seconds', floor=6)
+    lossy = ('::toEpochSeconds', '::forEpochSeconds', '::toUnixSeconds', '::forUnixSeconds', '::toEpochDays', '::forEpochDays')
+    memo = {}
+
+    def reaches(q, depth=0):
+        if q in memo:
+            return memo[q]
+        memo[q] = None
+        if q.endswith(lossy):
+            memo[q] = [q]
+            return memo[q]
+        if depth > 4:
+            return None
+        for f in lib.fns(q):
+            for e in all_exprs_of(f):
+                if e.k == 'call' and e.a[0].startswith('ace_time::'):
+                    r = reaches(e.a[0], depth + 1)
+                    if r:
+                        memo[q] = [q] + r
+                        return memo[q]
+        return None
+    for cls in ('LocalDate', 'LocalTime', 'LocalDateTime', 'TimeOffset', 'OffsetDateTime', 'ZonedDateTime'):
+        for q, fs in lib.funcs.items():
+            if not (q.startswith(NS + cls + '::for') and 'String' in q.split('::')[-1]):
+                continue
+            for f in fs:
+                c = '%s::%s' % (cls, q.split('::')[-1])
+                R.instance('R5', c, f.loc)
+                for e in all_exprs_of(f):
+                    if e.k == 'call' and e.a[0].startswith('ace_time::'):
+                        chain = reaches(e.a[0])
+                        if chain:
+                            R.violation('R5', c, e.loc, 'the parsed value is passed through %s: years outside the 32-bit epoch-seconds range (1932..2067) '
+                                        'that print correctly parse back as a different date' % ' -> '.join(x.split('ace_time::')[-1] for x in chain))
+                            break
     return R
+
+
+def all_exprs_of(f):
+    from .ir import all_exprs
+    return all_exprs(f.body)
 
 
 def _chr(e):
@@ -475,5 +517,8 @@ SELFTEST = [
     dict(id='parser-sign-on-hour-only', file='src/ace_time/TimeOffset.cpp', find='    return forHourMinute(-hour, -minute);', replace='    return forHourMinute(-hour, minute);', rule='R3'),
     dict(id='placeholder-dropped', file='src/ace_time/OffsetDateTime.cpp',
          find='  if (isError()) {\n    printer.print(F("<Invalid OffsetDateTime>"));\n    return;\n  }\n', replace='', rule='R4'),
+    dict(id='zoned-parse-through-epoch', file='src/ace_time/ZonedDateTime.h', regex=True, unique=False, nth=0,
+         find=r'(static ZonedDateTime forDateString\(const char\* dateString\) \{\n      OffsetDateTime dt = OffsetDateTime::forDateString\(dateString\);\n)      return ZonedDateTime\(dt, TimeZone::forTimeOffset\(dt.timeOffset\(\)\)\);',
+         replace=r'\1      return forEpochSeconds(dt.toEpochSeconds(), TimeZone::forTimeOffset(dt.timeOffset()));', rule='R5'),
     dict(id='zone-brackets', file='src/ace_time/ZonedDateTime.cpp', find="  printer.print('[');", replace="  printer.print('(');", rule='R1', construct='brackets'),
 ]
